@@ -52,7 +52,9 @@ Inductive err :=
 | EWrongType (n : name)      (* a symbol of a type the reference does not accept: excluded by validation *)
 | EOracle                    (* the oracle list has no outcome for this process: the tie is broken, loudly *)
 | ENoActResult               (* an assertion on the act outcome although the act phase did not complete *)
-| EShellInterpreter.         (* parse_act_interpreter does not accept a shell command *)
+| EShellInterpreter          (* parse_act_interpreter does not accept a shell command *)
+| EInvalidDef (n : name).    (* a definition that exactly's symbol validation rejects before anything is executed
+                                (the name is already defined / a program definition refers to an undefined symbol) *)
 
 Inductive res (A : Type) := Ok (a : A) | Err (e : err).
 Arguments Ok {A} a.
@@ -97,6 +99,7 @@ Inductive src :=
 | SFile (contents : text)                       (* -contents-of FILE (the contents are an oracle) *)
 | SProg (ch : chan) (ign : bool) (p : program)  (* -stdout-from / -stderr-from [-ignore-exit-code] PROGRAM *)
 | STrans (s : src) (t : transformer)            (* SRC -transformed-by T *)
+| SRunT (s : src) (ign : bool) (p : program)    (* SRC -transformed-by run [-ignore-exit-code] PROGRAM *)
 with program :=
 | PCmd (c : command) (a : acc src)              (* ProgramSdvForCommand *)
 | PRef (n : name) (a : acc src).                (* ProgramSdvForSymbolReference *)
@@ -122,6 +125,15 @@ Fixpoint lookup (t : table) (n : name) : option sval :=
   match t with
   | [] => None
   | (m, v) :: t' => if m =? n then Some v else lookup t' n
+  end.
+
+(** What exactly's symbol validation (execution/impl/symbol_validation.py, C08) guarantees for a definition that is
+    executed: the name is new; a program defined as a reference refers to a symbol that is defined. *)
+Definition def_ok (tbl : table) (n : name) (v : sval) : bool :=
+  match lookup tbl n with Some _ => false | None => true end &&
+  match v with
+  | VProg (PRef n' _) => match lookup tbl n' with Some _ => true | None => false end
+  | _ => true
   end.
 
 (** ** Resolving a program: accumulation along the chain of references *)
@@ -329,6 +341,13 @@ Section Eval.
               if (o_code (fst otr) =? 0) || ign
               then EOk (apply_trs (snd otr) (select ch (fst otr))) w'
               else EHard w')
+        | SRunT s' ign p =>
+            (* the transformer program reads its own stdin parts followed by the text to transform; the result
+               is its stdout after its transformations *)
+            ebind (run_program fuel' tbl cwd p [s'] w) (fun otr w' =>
+              if (o_code (fst otr) =? 0) || ign
+              then EOk (apply_trs (snd otr) (o_out (fst otr))) w'
+              else EHard w')
         end
     end
   with eval_parts (fuel : nat) (tbl : table) (cwd : text) (l : list src) (w : world) : eres (list part) :=
@@ -390,7 +409,9 @@ Section Eval.
   | IStdout (t : text)                (* [assert] stdout equals t *)
   | IStderr (t : text)                (* [assert] stderr equals t *)
   | IExitCodeFrom (p : program) (k : N)            (* [assert] exit-code -from PROGRAM == k *)
-  | IOutFrom (ch : chan) (p : program) (t : text). (* [assert] stdout / stderr -from PROGRAM equals t *)
+  | IOutFrom (ch : chan) (p : program) (t : text)  (* [assert] stdout / stderr -from PROGRAM equals t *)
+  | IOutRun (ch : chan) (neg : bool) (p : program) (* [assert] stdout / stderr [!] run PROGRAM  (text matcher) *)
+  | IFileRun (neg : bool) (path : text) (p : program). (* [assert] exists PATH : [!] run PROGRAM  (file matcher) *)
 
   Inductive act :=
   | ActCommand (p : program)                                    (* actor = command : [act] is a PROGRAM *)
@@ -415,7 +436,14 @@ Section Eval.
   Definition exec_instr (fuel : nat) (ph : phase) (i : instr) (st : state) : res (status * state) :=
     match i with
     | IDef n v =>
-        Ok (StPass, St ((n, v) :: st_tbl st) (st_cwd st) (st_stdin st) (st_act st) (st_source st) (st_caps st) (st_world st))
+        (* the main step of `def`: symbols.put - in ANY phase; later instructions (in execution order) see it.
+           Definitions that symbol validation would have rejected do not get here: loud model error.  (The one way
+           to violate the guard on the real program - the referenced definition's main step was skipped after a
+           failure while [cleanup] still runs - is known finding KF-C08-1, outside this model.) *)
+        if def_ok (st_tbl st) n v
+        then Ok (StPass, St ((n, v) :: st_tbl st) (st_cwd st) (st_stdin st) (st_act st) (st_source st) (st_caps st)
+                            (st_world st))
+        else Err (EInvalidDef n)
     | ICd d =>
         Ok (StPass, St (st_tbl st) d (st_stdin st) (st_act st) (st_source st) (st_caps st) (st_world st))
     | IStdin s =>
@@ -451,6 +479,25 @@ Section Eval.
         (* getter_from_program: the program is run; its exit code is the model of the matcher *)
         match run_program fuel (st_tbl st) (st_cwd st) p [] (st_world st) with
         | EOk otr w => Ok (if o_code (fst otr) =? k then StPass else StFail, set_world st w)
+        | EHard w => Ok (StHard, set_world st w)
+        | EErr e => Err e
+        end
+    | IOutRun ch neg p =>
+        (* string matcher `run`: the program reads its own stdin parts followed by the text; matches iff exit code 0 *)
+        match st_act st with
+        | None => Err ENoActResult
+        | Some a =>
+            match run_program fuel (st_tbl st) (st_cwd st) p [SFile (select ch a)] (st_world st) with
+            | EOk otr w => Ok (if xorb (o_code (fst otr) =? 0) neg then StPass else StFail, set_world st w)
+            | EHard w => Ok (StHard, set_world st w)
+            | EErr e => Err e
+            end
+        end
+    | IFileRun neg path p =>
+        (* file matcher `run`: the path is the LAST argument; matches iff exit code 0 *)
+        match run_program fuel (st_tbl st) (st_cwd st) (new_accumulated p (Acc [] [AStr [FConst path]] [])) []
+                          (st_world st) with
+        | EOk otr w => Ok (if xorb (o_code (fst otr) =? 0) neg then StPass else StFail, set_world st w)
         | EHard w => Ok (StHard, set_world st w)
         | EErr e => Err e
         end
